@@ -229,6 +229,19 @@ class AlphaUniquifier(PluginResult):
             next_number = self._randomize_number(next_number)
         return self.alpha_encoder(next_number).rjust(self.min_chars, self.alphabet[0])
 
+    def __reduce__(self):
+        state = {
+            # don't include pid: continuation processes shoud have their own.
+            "parts": self.number_generator.parts,
+            "alphabet": self.alphabet,
+            "randomize_codes": self.randomize_codes,
+            "min_chars": self.min_chars,
+        }
+        return (
+            self.__class__,
+            (state,),
+        )
+
 
 def as_bool(opt):
     if isinstance(opt, str) and opt.lower() in ["true", "1", "yes"]:
